@@ -16,10 +16,11 @@
     eval.py      `eval_expression` (simpleeval)        -> `eval` on the fragment `Expr`
 
   Not modelled (the adapter rejects flows that use them): `branch`/`any` elements (`when`), `check`,
-  `stop`, labels/goto, absolute jumps other than those the subset never produces, generic event
-  elements, flow ids with parameters, priorities other than 1.0.  Context keys written by the
-  interpreter itself (`event`, `config`, `last_user_message`, `last_bot_message`) are left out:
-  expressions that mention them are rejected by the adapter.
+  raw `stop` elements, labels/goto, flow ids with parameters, match elements of type
+  `StartUtteranceBotAction`, intent parameters.  Objects in the context (`$event`, `$config`,
+  `$generation_options`) are modelled by their *flattened* attribute paths (variables with dotted names,
+  `Ctx.withEvent`); values are None/bool/int/str/list-of-str.  This is enough to execute every element of
+  the shipped `rails/llm/llm_flows.co` (see Generated/LlmFlowsV1.lean) and the self-check style rails.
 
   The flag `repaired : Bool` selects between the code as it is (`false`) and the code with the two
   proposed repairs (`true`, what the harness compares against outside the findings' regions):
@@ -288,7 +289,7 @@ structure FlowCfg where
   prio : Nat := 100
   /-- extra `trigger_event_types` -/
   triggers : List String := []
-  deriving Repr, Inhabited
+  deriving Repr, Inhabited, DecidableEq
 
 inductive Status where
   | active | interrupted | aborted | completed
